@@ -40,7 +40,27 @@ func (x *FnCtx) call(fr *Frame, st *State, in ssa.Value, c *ssa.CallCommon) Valu
 		if ctr := x.eng.specs.Contracts[key]; ctr != nil {
 			return x.applyContract(fr, st, ctr, nil, c.Signature(), c.Value.Type(), full, site, resT)
 		}
-		// closed module interface: dispatch over implementers when all have contracts or bodies
+		// closed module interface with a single implementation: devirtualise
+		if !x.eng.openInterface(c.Value.Type()) {
+			impl := x.implementers(c.Value.Type())
+			if len(impl) == 1 {
+				if m := x.eng.prog.LookupMethod(impl[0], c.Method.Pkg(), c.Method.Name()); m != nil {
+					st.pc = x.tb.And(st.pc, x.tb.Eq(x.typeOf(recv), x.typeTag(impl[0])))
+					if _, isPtr := impl[0].(*types.Pointer); !isPtr {
+						full[0] = StructV{H: st.heap.Clone(), Ref: recv, T: impl[0]}
+					}
+					// method with value receiver called through pointer type
+					if m.Signature.Recv() != nil {
+						if _, vrecv := m.Signature.Recv().Type().(*types.Pointer); !vrecv {
+							if _, isPtr := impl[0].(*types.Pointer); isPtr {
+								full[0] = StructV{H: st.heap.Clone(), Ref: recv, T: m.Signature.Recv().Type()}
+							}
+						}
+					}
+					return x.callFunction(fr, st, m, full, nil, site, resT)
+				}
+			}
+		}
 		return x.unknownCall(st, key, full, resT, site)
 	}
 	switch callee := c.Value.(type) {
@@ -173,6 +193,8 @@ func (x *FnCtx) freshTyped(st *State, name string, t types.Type) Value {
 	x.assumeTypeV(st, v, t)
 	return v
 }
+
+var _ = types.Typ
 
 func (x *FnCtx) havocObject(st *State, ref *Term, t types.Type) {
 	l := layoutOf(t)
@@ -336,6 +358,13 @@ func (x *FnCtx) applyContract(fr *Frame, st *State, ctr *Contract, callee *ssa.F
 	}
 	// havoc the modifies set
 	x.havocModifies(st, pre, ctr, ec)
+	gn := map[string]bool{}
+	for _, ef := range ctr.Effects {
+		ghostNames(ef.E, gn)
+	}
+	for g := range gn {
+		x.havocItems(st, []modItem{{kind: "ghost", ghost: g}})
+	}
 	// the callee may allocate
 	a := tb.Fresh("A", IntSort)
 	st.pc = tb.And(st.pc, tb.Le(st.heap.A, a))
@@ -354,7 +383,7 @@ func (x *FnCtx) applyContract(fr *Frame, st *State, ctr *Contract, callee *ssa.F
 		}
 	}
 	pc := &EvalCtx{x: x, fn: callee, pkg: pkg, cur: st, old: pre, params: params, results: rtvs, resNames: resNames, oldA: pre.heap.A}
-	for _, en := range ctr.Ensures {
+	for _, en := range append(append([]Clause{}, ctr.Ensures...), ctr.Effects...) {
 		g := pc.boolTerm(en.E)
 		if pc.err != nil {
 			x.errs = append(x.errs, fmt.Sprintf("%s: ensures of %s: %v", site, ctr.Key, pc.err))
@@ -427,6 +456,9 @@ func (x *FnCtx) resolveModItem(it *Expr, ec *EvalCtx) (modItem, error) {
 	case "ident":
 		if it.Name == "everything" {
 			return modItem{kind: "all"}, nil
+		}
+		if it.Name == "nothing" {
+			return modItem{kind: "none"}, nil
 		}
 		if strings.HasPrefix(it.Name, "$") {
 			return modItem{kind: "ghost", ghost: it.Name}, nil
@@ -795,9 +827,16 @@ func (x *FnCtx) enterLoop(fr *Frame, st *State, li *loopInfo, pre **State, decr 
 		}
 	}
 	if heapTouched {
-		if ls.HasMod {
-			mec := &EvalCtx{x: x, fn: fr.fn, pkg: pkgOf(fr.fn), cur: st, old: fr.entry, params: x.frameParams(fr), frame: fr, oldA: fr.entry.heap.A}
-			items := x.resolveModifies(ls.Modifies, mec, name)
+		if ls.HasMod || (fr.ctr != nil && fr.ctr.HasMod && fr.depth == 0) {
+			var items []modItem
+			if ls.HasMod {
+				mec := &EvalCtx{x: x, fn: fr.fn, pkg: pkgOf(fr.fn), cur: st, old: fr.entry, params: x.frameParams(fr), frame: fr, oldA: fr.entry.heap.A}
+				items = x.resolveModifies(ls.Modifies, mec, name)
+			} else {
+				// default: the function's own modifies clause, evaluated in the entry state
+				mec := &EvalCtx{x: x, fn: fr.fn, pkg: pkgOf(fr.fn), cur: fr.entry, old: fr.entry, params: x.frameParams(fr), oldA: fr.entry.heap.A}
+				items = x.resolveModifies(fr.ctr.Modifies, mec, name)
+			}
 			x.havocItems(h, items)
 			a := tb.Fresh("A", IntSort)
 			h.pc = tb.And(h.pc, tb.Le(h.heap.A, a))
